@@ -305,6 +305,7 @@ type wrappedReader struct {
 	lastLine    int64
 	accumulated []*Stmt
 	yield       func([]*Stmt, error) bool
+	stopped     bool // yield returned false, so it must not be called again
 }
 
 func (w *wrappedReader) Read(p []byte) (n int, err error) {
@@ -315,11 +316,13 @@ func (w *wrappedReader) Read(p []byte) (n int, err error) {
 		if w.p.Incomplete() {
 			// Incomplete statement; call back to print "> ".
 			if !w.yield(w.accumulated, w.p.err) {
+				w.stopped = true
 				return 0, io.EOF
 			}
 		} else if len(w.accumulated) == 0 {
 			// Nothing was parsed; call back to print another "$ ".
 			if !w.yield(nil, w.p.err) {
+				w.stopped = true
 				return 0, io.EOF
 			}
 		}
@@ -372,6 +375,9 @@ func (p *Parser) InteractiveSeq(r io.Reader) iter.Seq2[[]*Stmt, error] {
 	return func(yield func([]*Stmt, error) bool) {
 		w := wrappedReader{p: p, rd: r, yield: yield}
 		for stmts, err := range p.StmtsSeq(&w) {
+			if w.stopped {
+				break
+			}
 			w.accumulated = append(w.accumulated, stmts)
 			if err != nil {
 				if !yield(w.accumulated, err) {
